@@ -23,7 +23,7 @@ RULE = ("(a) enumerated: every unordered pair of calls from the menu {store_obje
         "Non-trivial = the calls conflict (share a pid or a content) and >=1 preemption landed inside a call; "
         "distinct key = (start, program, schedule class, outcome vector)."
         ' Further enumerated families: hand-over (H parked, W blocks, H completes, W parked inside its critical section, a late third call, W continues); two FileHashStore instances on one directory adding to / removing from one shared, never-empty reference list (different pids; conflict-directed enumeration of every schedule with <=2 (quick) / <=3 (thorough) preemptions landing before non-commuting operations); thorough: conflict-directed <=3 preemptions for every conflicting pair x start; executions that saw a wait with a timeout are re-run with the timed waits expiring.'
-        ' Round 9 family references-without-object: start states in which one or two pids were tagged to the cid BEFORE any upload (reference files without data object); every conflicting pair of {delete p, tag q, store q, store p, tag p, delete q, store without pid} under every single preemption (quick) / conflict-directed <=3 (thorough).')
+        ' Round 9 family references-without-object: start states in which one or two pids were tagged to the cid BEFORE any upload (reference files without data object); every conflicting pair of {delete p, tag q, store q, store p, tag p, delete q, store without pid} under every single preemption (quick) / conflict-directed <=3 (thorough). Family sequenced: one caller issues two calls in a row (store then delete, delete then store / tag again) while another caller's call on the same shared list overlaps them; the sequential specification keeps each caller's program order; conflict-directed <=2 / <=3 preemptions.')
 EXHAUSTIVE_NOTE = ("part (a) enumerates all 55 pairs x 6 starts x all single-preemption schedules (quick) / all "
                    "schedules with <=2 preemptions for conflicting pairs (thorough)")
 ASSUMPTIONS = ["interleaving granularity = file-system operations and lock operations of the store (each step "
@@ -51,6 +51,13 @@ NOOBJ_STARTS = {"p->X,no-object": [{"op": "tag", "pid": "p", "cid": {"of": X}}],
 NOOBJ_MENU = [{"op": "delete", "pid": "p"}, {"op": "tag", "pid": "q", "cid": {"of": X}}, {"op": "store", "pid": "q", "c": X},
               {"op": "store", "pid": "p", "c": X}, {"op": "tag", "pid": "p", "cid": {"of": X}}, {"op": "delete", "pid": "q"},
               {"op": "store", "pid": None, "c": X}]
+SEQ_START = [{"op": "store", "pid": "p", "c": X}, {"op": "store", "pid": "r", "c": X}]
+_st = lambda pid: {"op": "store", "pid": pid, "c": X}                      # noqa: E731
+_tg = lambda pid: {"op": "tag", "pid": pid, "cid": {"of": X}}              # noqa: E731
+_dl = lambda pid: {"op": "delete", "pid": pid}                             # noqa: E731
+SEQUENCED = [(_dl("p"), [_st("q"), _dl("q")]), (_tg("q"), [_dl("p"), _tg("p")]), (_st("q"), [_dl("p"), _st("p")]),
+             (_dl("p"), [_tg("q"), _dl("q")]), (_st("q"), [_st("s"), _dl("s")]), (_tg("q"), [_tg("s"), _dl("s")]),
+             ({"op": "dii", "c": X, "cks": "wrong"}, [_dl("p"), _st("p")]), (_dl("p"), [_st("q"), _st("s")])]
 VAL_CALLS = [{"op": "store", "pid": "p", "c": X, "cks": "right"}, {"op": "store", "pid": "q", "c": X, "size": "right"},
              {"op": "store", "pid": "p", "c": X, "cks": "right", "cks_algo": "md5", "size": "right"}, {"op": "store", "pid": "q", "c": X},
              {"op": "store", "pid": None, "c": X}]
@@ -198,6 +205,13 @@ def enumerate_cases(tier):
                     for first in (0, 1):
                         yield dict(BASE, start_name=sname, start=start, calls=[a, b], mode="cd", max_preempt=3, firsts=[first],
                                    family="references-without-object")
+    # 'sequenced': one caller issues TWO calls one after the other while another caller's call overlaps them; the sequential
+    # orders that explain the execution keep the caller's program order.  The shared object stays referenced by a third pid
+    # throughout and no pid is stored and deleted by different callers (the windows of the known findings are not in these programs)
+    for a, bs in SEQUENCED:
+        for first in (0, 1):
+            yield dict(BASE, start_name="p=X,r=X", start=SEQ_START, calls=[a, {"op": "seq", "ops": bs}], mode="cd",
+                       max_preempt=2 if tier == "quick" else 3, firsts=[first], family="sequenced")
     # quick tier: the six most contended pairs already get every schedule with <=2 preemptions
     DEEP = {("p=X", 2, 6), ("r=X", 4, 6), ("empty", 0, 1), ("p=X,q=X", 6, 7), ("p=X", 5, 6), ("p=X", 0, 6)}
     for sname in STARTS:
